@@ -3377,6 +3377,12 @@ class HasTraits(CHasTraits, metaclass=MetaHasTraits):
     def _init_trait_delegate_listener(self, name, kind, pattern):
         """ Sets up the listener for a delegate trait.
         """
+        if name in self.__dict__:
+            # A local value was assigned before the listeners were set up
+            # (in a constructor that assigns before calling the base class
+            # constructor): the link to the prototype is already broken.
+            return
+
         name_pattern = self._trait_delegate_name(name, pattern)
         target_name_len = len(name_pattern.split(":")[-1])
 
